@@ -101,8 +101,13 @@ class Gen(object):
             if k < 0.9:
                 return {'k': 'ann', 'name': self.name(), 'site': 0, 'value': self.expr(0, 1) if self.rng.random() < 0.7 else None}
             return {'k': 'assign', 'targets': [('n', self.name(), 0)], 'value': self.expr(1, 2)}
-        if r < 0.42:
+        if r < 0.36:
             return {'k': 'expr', 'value': self.expr(1, 3)}
+        if r < 0.42:
+            # a decorated def / class statement: decorator expressions are read in the enclosing body, then the name is bound
+            nm = self.name()
+            self.maybe.add(nm)
+            return {'k': 'defstmt', 'name': nm, 'site': 0, 'decos': self.expr(0, 2), 'cls': self.rng.random() < 0.3}
         if r < 0.50:
             if self.c03:
                 return {'k': 'expr', 'value': self.expr(1, 2)}
@@ -174,6 +179,8 @@ class Gen(object):
             inject_single(body, self.rng)
         if getattr(self, 'multi', False):
             inject_multiway(body, self.rng)
+        if getattr(self, 'blockfirst', False):
+            inject_blockfirst(body, self.rng)
         return body
 
 
@@ -256,6 +263,24 @@ def inject_multiway(body, rng, name='y'):
     return body
 
 
+def inject_blockfirst(body, rng, name='w'):
+    """append a block whose header binds `name` (except .. as, for, with .. as) and whose FIRST statement is a decorated
+    definition reading it in the decorator: the binding must be visible from the very start of the block, decorators included"""
+    first = {'k': 'defstmt', 'name': rng.choice(['u', name]), 'site': 0, 'decos': [('r', name, 0)], 'cls': rng.random() < 0.3}
+    inner = [first, {'k': 'expr', 'value': [('r', name, 0)]}]
+    form = rng.random()
+    if form < 0.45:
+        k = rng.choice(KINDS)
+        st = {'k': 'try', 'body': [{'k': 'mayraise', 'kinds': [k]}, {'k': 'pass'}, {'k': 'mayraise', 'kinds': [k]}],
+              'handlers': [{'kinds': [k], 'name': name, 'site': 0, 'body': inner}], 'orelse': [], 'final': []}
+    elif form < 0.75:
+        st = {'k': 'for', 'target': ('n', name, 0), 'iter': [], 'body': inner, 'orelse': []}
+    else:
+        st = {'k': 'with', 'items': [([], ('n', name, 0))], 'body': inner}
+    body.append(st)
+    return body
+
+
 def pat_names(p):
     if p[0] in ('n', 's'):
         return [p[1]]
@@ -300,6 +325,9 @@ def number(body):
             s['value'] = ex(s['value']) if s['value'] is not None else None
         elif k in ('expr', 'return'):
             s['value'] = ex(s['value']) if s.get('value') is not None else None
+        elif k == 'defstmt':
+            s['decos'] = ex(s['decos'])
+            s['site'] = f('bind', s['name'])
         elif k == 'if':
             s['test'] = ex(s['test'])
             s['body'] = blk(s['body'])
@@ -353,6 +381,9 @@ def bound_names(body):
                 ex(s['value'])
             elif k in ('expr', 'return'):
                 ex(s.get('value'))
+            elif k == 'defstmt':
+                ex(s['decos'])
+                out.add(s['name'])
             elif k in ('if', 'while'):
                 ex(s['test'])
                 blk(s['body'])
@@ -457,6 +488,12 @@ def render(body, flavour='func', pre=None, layout=None):
                 out.append(head + expr(s['value'], line, len(head), fn='_vo.v(%r, _vo.e' % ([s['site']],)) + ')')
         elif k == 'expr':
             out.append(pad + expr(s['value'], line, len(pad)))
+        elif k == 'defstmt':
+            # the decorator replaces the function / class by the token of this binding site
+            head = pad + '@_vo.dk(%d, ' % s['site']
+            out.append(head + expr(s['decos'], line, len(head)) + ')')
+            R.site_pos[s['site']] = (line + 1, s['name'])
+            out.append(pad + ('class %s: pass' % s['name'] if s['cls'] else 'def %s(): pass' % s['name']))
         elif k == 'return':
             out.append(pad + ('return ' + expr(s['value'], line, len(pad) + 7) if s['value'] is not None else 'return'))
         elif k == 'pass':
@@ -560,6 +597,10 @@ def binding_positions(source, npre, nbody):
             continue
         if isinstance(n, ast.Name) and isinstance(n.ctx, ast.Store):
             occ.append((n.lineno, n.col_offset, n.id))
+        elif isinstance(n, (ast.FunctionDef, ast.ClassDef)) and n.name != '_vprog' and n.name != '_vProg':
+            import re
+            m = re.search(r'\b(?:def|class)\s+(%s)\b' % re.escape(n.name), source.split('\n')[n.lineno - 1])
+            occ.append((n.lineno, m.start(1), n.name))
         elif isinstance(n, ast.ExceptHandler) and n.name:
             occ.append((n.lineno, n.col_offset, n.name))
     occ.sort()
@@ -617,6 +658,8 @@ def reduce_nodes(body):
             return seq(ex(s['value']) + [new(k='bind', n=s['name'], s=s['site'])])
         if k == 'expr':
             return seq(ex(s['value']))
+        if k == 'defstmt':
+            return seq(ex(s['decos']) + [new(k='bind', n=s['name'], s=s['site'])])
         if k == 'return':
             return seq(ex(s['value']) + [new(k='return')])
         if k == 'pass':
@@ -723,6 +766,9 @@ class Oracle(object):
 
     def e(self, *args):
         return None
+
+    def dk(self, site, _e):
+        return lambda f: Token(site)
 
     def p(self, rid):
         self.tick()
